@@ -69,6 +69,9 @@ fn entries() -> Vec<Entry> {
             }),
             replies: 7,
         },
+        Entry { name: "gamespy1 (reply in 2 parts)", family: Family::Gs1, tcp: false, call: Arc::new(|ip, port, ts| j(gamespy::one::query(&SocketAddr::new(ip, port), ts))), replies: 2 },
+        Entry { name: "gamespy1 query_vars (reply in 2 parts)", family: Family::Gs1, tcp: false, call: Arc::new(|ip, port, ts| j(gamespy::one::query_vars(&SocketAddr::new(ip, port), ts))), replies: 2 },
+        Entry { name: "gamespy2", family: Family::Gs2, tcp: false, call: Arc::new(|ip, port, ts| j(gamespy::two::query(&SocketAddr::new(ip, port), ts))), replies: 1 },
         Entry { name: "gamespy3", family: Family::Gs3, tcp: false, call: Arc::new(|ip, port, ts| j(gamespy::three::query(&SocketAddr::new(ip, port), ts))), replies: 3 },
         Entry {
             name: "unreal2",
@@ -386,11 +389,11 @@ impl Prop for C12 {
     fn stall_secs(&self) -> u64 { 120 }
     fn exhaustive_when_uncapped(&self) -> bool { true }
     fn rule(&self) -> String {
-        "full matrix on real loopback sockets: entry point {valve (challenge + 3 requests, split lists), gamespy3 (handshake + \
+        "full matrix on real loopback sockets: entry point {valve (challenge + 3 requests, split lists), gamespy1 query / query_vars (2 parts), gamespy2, gamespy3 (handshake + \
          data), unreal2 (trailing receives), quake3, bedrock, java (TCP), legacy 1.6 (TCP)} x silence point {before the first \
          reply, after each reply, never} + {TCP connection refused / UDP port closed} x {127.0.0.1, ::1} x read/write/connect \
          timeout {150 ms (quick); 150, 400 ms (thorough)} x retries {0, 1 (quick); 0, 1, 2}; plus the same settings deserialised from their JSON form; plus, for TCP, half a reply followed by silence on an open connection; eco over HTTP (accept-then-hold, \
-         refused) and the master server (silent). The loopback servers are driven by the same reference models. Oracle: the number of receive timeouts of the deterministic twin run is at most the reference count N; the \
+         refused) and the master server (silent). The loopback servers are driven by the same reference models. Oracle: a server silent before the exchange is complete means a PacketReceive error (reference; inside Unreal 2's lists the twin's outcome); the number of receive timeouts of the deterministic twin run is at most the reference count N; the \
          outcome class equals the outcome of the deterministic twin run under the virtual network with the same silence point \
          ; the call returns within N x timeout + 1.5 s, where N is read off the FAULT-FREE exchange (its natural timeouts + one that may end a greedy list + retries + 1 for the unit that meets the silence), not off the implementation's behaviour under the fault; over UDP the server must receive no more than (requests before the silence + retries x requests an attempt sends before its first receive) datagrams (hard watchdog at \
          4x: 'never times out'); every datagram the server received equals a request the twin run sent. Data path: UdpSocket / \
@@ -497,8 +500,11 @@ impl Prop for C12 {
                         Some((res, elapsed)) => {
                             let got = class_of(&res);
                             let recvd = server.received.lock().unwrap().clone();
-                            if got != twin_class {
-                                Some((format!("error-class:{}", if v6 { "ipv6" } else { "ipv4" }), format!("outcome {got}, twin run under the virtual network: {twin_class}")))
+                            // a server that falls silent before the exchange is complete means a receive-class error; only
+                            // Unreal 2's lists end with a silence by design (there the twin run's outcome is the reference)
+                            let want_class = if silent_before_end && e.family != Family::Unreal2 { "err:PacketReceive".to_string() } else { twin_class.clone() };
+                            if got != want_class {
+                                Some((format!("error-class:{}", if v6 { "ipv6" } else { "ipv4" }), format!("outcome {got}; a server silent after {k} of {total_replies} replies means {want_class}")))
                             } else if elapsed > bound {
                                 Some(("too-slow".into(), format!("took {elapsed:?}, bound {bound:?} = {n_timeouts} x {ms} ms + slack")))
                             } else if !e.tcp && e.family != Family::Unreal2 && silent_before_end && recvd.len() > expected_requests {
